@@ -73,6 +73,12 @@ func runR10_3(c *Ctx, r *R) {
 			ci := firstInt(cal.Signature)
 			cv, isCall := call.(*ssa.Call)
 			if ci < 0 || !isCall {
+				// a helper that reports nothing: what it appends is the sum of its own Grow arguments, if those are
+				// executed on every path and are expressions of its parameters
+				if sz, ok := appendedByHelper(e, fc, cal, cc.Args); ok && isCall {
+					apps = append(apps, app{call, sz, cal.Name()})
+					continue
+				}
 				bad = "the buffer is passed to " + cal.Name() + " which reports no size"
 				continue
 			}
